@@ -103,7 +103,7 @@ func TestC15(t *testing.T) {
 		Assumptions: []string{"injected errors stand for encode errors no valid input reaches; they return from the hook point exactly like an error of the surrounding operation", "allocator accounting by arrow-go's CheckedAllocator"},
 		Gates: map[string]map[string]int{
 			"quick":    {"closes_checked": 350, "schema_updates_crossed": 1000, "encode_errors_injected": 40, "encode_errors_natural": 6, "obs.reset": 5, "obs.overflow": 5},
-			"thorough": {"closes_checked": 6000, "schema_updates_crossed": 20000, "encode_errors_injected": 300, "encode_errors_natural": 20, "obs.reset": 50, "obs.overflow": 50},
+			"thorough": {"closes_checked": 5000, "schema_updates_crossed": 20000, "encode_errors_injected": 250, "encode_errors_natural": 20, "obs.reset": 50, "obs.overflow": 50},
 		},
 		ExhaustiveLayers: []string{"inject (site x hit 1..8 x signal)"},
 		Excluded:         carveNames,
